@@ -194,3 +194,180 @@ register(Unit('contexts.minimize', 'concepts/contexts.py', 'MinimizeMixin._minim
                            'contract of Properties.prime proved in unit matrices.prime',
                            'yields clause: iteration k of the filter loop yields powerset[k] iff Dn(powerset[k]) = extent'],
               linkage=[('type(ctx)._minimize', None)]))
+
+
+# ---- C05: Context.neighbors / _neighbors
+
+class NeighborSeq:
+    """What lindig.neighbors(A) yields (contract proved in unit lindig.neighbors + Lean corollary cover_unique_gen):
+    a finite sequence of pairs (E_t, Up(E_t)), the upper covers of A, each once."""
+
+    def __init__(self, C, path, A):
+        self.len = Int('nb.len')
+        self.E = Function('nb.E', I, I)
+        self.A = A
+        path.assume(self.len >= 0)
+
+    def iterv(self, C):
+        return IterV(lambda t: TupleV([IntV(self.E(t), 'Objects'), IntV(C.Up(self.E(t)), 'Properties')]), self.len, 'neighbors')
+
+
+def _ctx_neighbors_unit():
+    def make():
+        C = Ctx()
+
+        def harness(path):
+            q = lib.Query(C, path)
+            raw = path.fresh_bool('raw')
+            ctx = full_context_obj(C)
+            calls = []
+
+            def _neighbors(p, args, kw):
+                (arg,) = args
+                # pre@call of lindig.neighbors: the argument is an extent of this context
+                p.oblige('pre@_neighbors/extent', 'pre@call', And(C.is_objset(arg.t), C.Cl(arg.t) == arg.t))
+                nb = NeighborSeq(C, p, arg.t)
+                calls.append((arg, nb))
+                return nb.iterv(C)
+            ctx.fields['_neighbors'] = FuncV('_neighbors', _neighbors)
+            env = {'self': ctx, 'objects': q.val, 'raw': BoolV(raw)}
+
+            def finish(path, env, outcome):
+                kind, val = outcome
+                if kind == 'raise':
+                    path.oblige('post/raises-only-on-unknown-name', 'post', And(BoolVal(val == 'KeyError'), Not(q.all_obj)))
+                    return
+                path.oblige('post/one-call', 'post', BoolVal(len(calls) == 1))
+                arg, nb = calls[0]
+                # the upper covers of the concept generated by those objects: neighbors of Cl(A)
+                path.oblige('post/argument-is-generated-extent', 'post', arg.t == C.Cl(q.A))
+                from pyvc.engine import SeqV
+                ok = isinstance(val, (SeqV, IterV))
+                path.oblige('post/list', 'post', BoolVal(ok))
+                if not ok:
+                    return
+                path.oblige('post/length', 'post', val.length == nb.len)
+                t = path.fresh_int('t')
+                path.assume(And(0 <= t, t < nb.len))
+                el = val.at(t)
+                e, i = el.items
+                if isinstance(e, IntV):
+                    path.oblige('post/raw-form', 'post', raw)
+                    path.oblige('post/element', 'post', And(e.t == nb.E(t), i.t == C.Up(nb.E(t))))
+                else:
+                    path.oblige('post/label-form-when-not-raw', 'post', Not(raw))
+                    _members_is(path, 'extent', e, nb.E(t), 'Objects')
+                    _members_is(path, 'intent', i, C.Up(nb.E(t)), 'Properties')
+            return env, _loops(C), finish
+        return C.axioms(), harness
+    return make
+
+
+register(Unit('contexts.neighbors', 'concepts/contexts.py', 'LatticeMixin.neighbors', _ctx_neighbors_unit(),
+              assumptions=['contract of lindig.neighbors (unit lindig.neighbors + lemmas/Lindig.lean) used at the call through self._neighbors',
+                           'bitsets contracts: frommembers, members()', 'contract of Objects.double proved in unit matrices.double'],
+              linkage=[('type(ctx).neighbors', None)]))
+
+
+def _ctx__neighbors_unit():
+    def make():
+        C = Ctx()
+
+        def harness(path):
+            ctx = full_context_obj(C)
+            A = C.fresh_objset(path, 'objects0')
+            seen = []
+            sentinel = ObjV('generator', {}, name='neighbors-generator')
+
+            def alg_neighbors(p, args, kw):
+                seen.append((args, kw))
+                return sentinel
+            algorithms = ObjV('module', {'neighbors': FuncV('algorithms.neighbors', alg_neighbors)}, name='algorithms')
+            env = {'self': ctx, 'objects': A}
+            loops = _loops(C)
+            loops['globals'] = dict(loops['globals'], algorithms=algorithms)
+
+            def finish(path, env, outcome):
+                if not _no_exc(path, outcome):
+                    return
+                ok = (len(seen) == 1 and len(seen[0][0]) == 1 and seen[0][0][0] is A and set(seen[0][1]) == {'Objects'}
+                      and seen[0][1]['Objects'] is ctx.fields['_Objects'] and outcome[1] is sentinel)
+                path.oblige('post/pass-through', 'post', BoolVal(ok))
+            return env, loops, finish
+        return C.axioms(), harness
+    return make
+
+
+register(Unit('contexts._neighbors', 'concepts/contexts.py', 'LatticeMixin._neighbors', _ctx__neighbors_unit(),
+              assumptions=['pass-through to algorithms.neighbors with this context\'s object bitset class'],
+              linkage=[('type(ctx)._neighbors', None)]))
+
+
+# ---- C14: Context.__eq__ / __ne__ -- "two contexts are equal exactly when their triples are equal"
+
+def _eq_unit(name):
+    def make():
+        C = Ctx()
+
+        def harness(path):
+            from z3 import Bool
+            eqs = {f: Bool('eq.' + f) for f in ('objects', 'properties', 'bools')}
+            is_ctx = path.fresh_bool('other_is_context')
+
+            def opaque(owner, field):
+                o = ObjV('Opaque', {}, name='%s.%s' % (owner, field))
+                o.owner, o.field = owner, field
+
+                def _eq(p, args, kw):
+                    a, b = args
+                    if getattr(b, 'field', None) != a.field:
+                        return BoolV(False)
+                    if a.owner == b.owner:
+                        return BoolV(True)
+                    return BoolV(eqs[a.field])
+                o.fields['__eq__'] = FuncV('tuple.__eq__', _eq)
+                return o
+            NotImpl = ObjV('NotImplementedType', {}, name='NotImplemented')
+            Context = ClassV('Context')
+
+            def mk(owner, cls):
+                o = ObjV(cls, {f: opaque(owner, f) for f in eqs}, name=owner)
+                eq_all = And(*eqs.values())
+
+                def ctx_eq(p, args, kw):
+                    a, b = args
+                    # contract of Context.__eq__ (proved in unit contexts.__eq__), used by __ne__
+                    if b.cls != 'Context':
+                        return NotImpl
+                    return BoolV(eq_all if a is not b else True)
+                o.fields['__eq__'] = FuncV('Context.__eq__', ctx_eq)
+                return o
+            this = mk('self', 'Context')
+            other_kind = 'Context' if path.branch(is_ctx) else 'Other'
+            other = mk('other', other_kind)
+            g = dict(lib.builtins(), Context=Context, NotImplemented=NotImpl)
+            env = {'self': this, 'other': other}
+
+            def finish(path, env, outcome):
+                if not _no_exc(path, outcome):
+                    return
+                val = outcome[1]
+                if other_kind != 'Context':
+                    path.oblige('post/non-context-NotImplemented', 'post', BoolVal(val is NotImpl))
+                    return
+                path.oblige('post/bool', 'post', BoolVal(isinstance(val, BoolV)))
+                want = And(*eqs.values())
+                path.oblige('post/equal-iff-triples-equal', 'post',
+                            truthy(val) == (want if name == '__eq__' else Not(want)))
+            return env, {'globals': g}, finish
+        return C.axioms(), harness
+    return make
+
+
+from pyvc.engine import ClassV  # noqa: E402
+
+for _n in ('__eq__', '__ne__'):
+    register(Unit('contexts.' + _n, 'concepts/contexts.py', 'ComparableMixin.' + _n, _eq_unit(_n),
+                  assumptions=['tuple/list equality of objects/properties/bools is structural equality of the triples (builtin)',
+                               '__ne__: contract of __eq__ (unit contexts.__eq__) at the call `self == other`'],
+                  linkage=[('type(ctx).%s' % _n, None)]))
